@@ -12,7 +12,7 @@ wt = tempfile.mkdtemp(prefix='mut_')
 out = tempfile.mkdtemp(prefix='mutout_')
 try:
     subprocess.run('git -C /repo worktree add -q --detach %s HEAD' % wt, shell=True, check=True)
-    r = subprocess.run('git apply %s' % patch, shell=True, cwd=wt, capture_output=True, text=True)
+    r = subprocess.run('git apply %s || git apply --3way %s' % (patch, patch), shell=True, cwd=wt, capture_output=True, text=True)
     if r.returncode:
         print('PATCH DOES NOT APPLY', r.stderr); sys.exit(3)
     for p in props:
